@@ -363,6 +363,15 @@ theorem bundle_agreed (legacySip : Bool) (n : Nat) :
     willBundle legacySip .answer n ob = ob := by
   cases legacySip <;> simp [willBundle]
 
+/-- **Witness (known findings `cfgmix:{rtp,srtp}-av-stdofferer-legacyanswerer:rtp-not-delivered:…`)**: with
+different compatibility modes the two ends do NOT agree on BUNDLE: a Standard offerer with two sections offers
+one bundled transport, a LegacySip answerer answers with per-section transports — the hypothesis "one `bundle`
+flag for both ends" of `plan_rtp_delivers` / `sectionDelivered` fails, and on the implementation the second
+section's RTP is then delivered in neither direction (Rtp mode). -/
+theorem mixed_compat_bundle_disagrees_witness :
+    willBundle false .offer 2 false = true ∧ willBundle true .answer 2 (willBundle false .offer 2 false) = false ∧
+    advertisedSocket true 1 ≠ advertisedSocket false 1 := by decide
+
 /-- **bundle_answer_follows_offer**, independent compatibility modes of the two ends: the answer groups the
 sections only if the offer did, and does so exactly when the answerer is not in LegacySip mode — a LegacySip
 answerer never BUNDLEs even when a Standard peer offers it (the `!LegacySip` conjunct of the answer arm,
